@@ -158,6 +158,21 @@ for case in job['cases']:
     if not rec['faithful']:
         rec['orig'] = s0[:600]
         rec['copy'] = sc[:600]
+    # a copy of a NESTED element is an element on its own: no parent, level 0, and what is done to the original tree above the element it was copied
+    # from (here: that element's parent taken out of a measure it was put into) does not show in it
+    try:
+        kids_ = e.get_children(ordered=False)
+        if kids_:
+            kc = copy.deepcopy(kids_[0])
+            lone = ts(kc)
+            holder = XE.XMLMeasure(number='1', xsd_check=False)
+            holder.add_child(e)
+            kc2 = copy.deepcopy(kids_[0])
+            mid = ts(kc2)
+            holder.remove(e)
+            rec['nested_copy'] = {'parent_none': kc.get_parent() is None and kc2.get_parent() is None, 'same': ts(kc2) == mid == lone and ts(kc) == lone}
+    except Exception as ex:
+        rec['nested_copy'] = {'exc': type(ex).__name__ + ': ' + str(ex)[:80]}
     # independence: mutate the copy, the original must not move; then mutate the original, the (fresh) copy must not move
     indep = []
     def mutations(x):
